@@ -236,10 +236,16 @@ fn eval_filter_expr(
         let mut filtered = vec![];
         for (position, n) in nodes.into_iter().enumerate() {
             context.push_position(position + 1);
-            if eval_predicate(predicate, n.clone(), context)? {
-                filtered.push(n);
-            }
+            let keep = eval_predicate(predicate, n.clone(), context);
             context.pop_position();
+            match keep {
+                Ok(true) => filtered.push(n),
+                Ok(false) => {}
+                Err(e) => {
+                    context.pop_size();
+                    return Err(e);
+                }
+            }
         }
         nodes = filtered;
         context.pop_size();
@@ -414,10 +420,16 @@ fn eval_axis_node_test(
         let mut filtered = vec![];
         for (position, n) in nodes.into_iter().enumerate() {
             context.push_position(position + 1);
-            if eval_predicate(predicate, n.clone(), context)? {
-                filtered.push(n);
-            }
+            let keep = eval_predicate(predicate, n.clone(), context);
             context.pop_position();
+            match keep {
+                Ok(true) => filtered.push(n),
+                Ok(false) => {}
+                Err(e) => {
+                    context.pop_size();
+                    return Err(e);
+                }
+            }
         }
         nodes = filtered;
         context.pop_size();
